@@ -317,6 +317,9 @@ func (st *State) script(goal string) string {
 }
 
 func (st *State) check(kind, label, prop, src, where, goal string) {
+	if kind == "nopanic" && st.vf.fc != nil && st.vf.fc.NoPanicProp != "" {
+		prop = st.vf.fc.NoPanicProp
+	}
 	if kind == "nopanic" && goal != "false" && goal != "true" {
 		if st.vf.fc != nil && st.vf.fc.Flags["recovered"] {
 			// the handler runs under a panic-recovery interceptor: a panic is contained and reported to the caller;
@@ -1371,7 +1374,68 @@ func (vf *VerifyFunc) derefCheck(st *State, p *Val, in ssa.Instruction) {
 		st.assume(not(eq(base, "0")))
 		return
 	}
-	st.check("nopanic", "nil-deref@"+st.pos(in), "C14", "nil pointer dereference", st.pos(in), not(eq(base, "0")))
+	lab := "nil-deref@" + st.pos(in)
+	if d := derefPath(in); d != "" {
+		lab = "nil-deref/" + d // named by the expression dereferenced, not by the line (stable under unrelated edits)
+	}
+	st.check("nopanic", lab, "C14", "nil pointer dereference", st.pos(in), not(eq(base, "0")))
+}
+
+// derefPath: source-level path of the pointer an instruction dereferences (x.F.G), "" when it has no simple form.
+func derefPath(in ssa.Instruction) string {
+	var base ssa.Value
+	switch x := in.(type) {
+	case *ssa.FieldAddr:
+		base = x.X
+	case *ssa.UnOp:
+		base = x.X
+	case *ssa.Store:
+		base = x.Addr
+	case *ssa.IndexAddr:
+		base = x.X
+	default:
+		return ""
+	}
+	return valuePath(base, 0)
+}
+
+func valuePath(v ssa.Value, depth int) string {
+	if depth > 6 {
+		return ""
+	}
+	switch x := v.(type) {
+	case *ssa.Parameter:
+		return x.Name()
+	case *ssa.FreeVar:
+		return x.Name()
+	case *ssa.UnOp:
+		if x.Op == token.MUL {
+			if fa, ok := x.X.(*ssa.FieldAddr); ok {
+				return valuePath(fa, depth+1)
+			}
+			if al, ok := x.X.(*ssa.Alloc); ok && al.Comment != "" {
+				return al.Comment
+			}
+		}
+	case *ssa.FieldAddr:
+		p := valuePath(x.X, depth+1)
+		if p == "" {
+			return ""
+		}
+		st, ok := x.X.Type().Underlying().(*types.Pointer)
+		if !ok {
+			return ""
+		}
+		if s, ok := st.Elem().Underlying().(*types.Struct); ok && x.Field < s.NumFields() {
+			return p + "." + s.Field(x.Field).Name()
+		}
+	case *ssa.Field:
+		p := valuePath(x.X, depth+1)
+		if s, ok := x.X.Type().Underlying().(*types.Struct); ok && p != "" && x.Field < s.NumFields() {
+			return p + "." + s.Field(x.Field).Name()
+		}
+	}
+	return ""
 }
 
 func (vf *VerifyFunc) doReturn(st *State, fr *Frame, rs []*Val, in ssa.Instruction) bool {
